@@ -309,6 +309,39 @@ pub fn structured_base(ctx: &Ctx, prop: &str, k: u64, max_len: usize) -> Base {
     gen_from_seed(1, false, &mut r, 0)
 }
 
+/// Every sixth generated base of the C04 / C12 field walks is a *consistent* file that uses a
+/// feature the pinned tree refuses or ignores (embedded ICC profile, external-only tileset, link to
+/// a tilemap cel, property maps): a change that starts to interpret such data gets its lengths,
+/// counts and type codes walked like any other field. (C05 quantifies over files that load, so
+/// these bases would be wasted there.)
+fn refused_feature_base(prop: &str, seed: u64, id: u64, base: Base) -> Base {
+    if !(prop == "C04" || prop == "C12") || !base.desc.starts_with("gen:") || id % 6 != 5 {
+        return base;
+    }
+    let mut r = Rng::new(seed ^ 0xFEA7);
+    match (id / 6) % 4 {
+        0 => {
+            // an ICC profile whose declared length is exactly what is there
+            for attempt in 0..64u64 {
+                let b = gen_special(seed.wrapping_add(attempt), "color-profile-icc", 1, &mut r);
+                let ok = b.map.fields.iter().any(|f| {
+                    f.chunk == "colorprofile" && f.name == "icc-len" && {
+                        let v = crate::format::get(&b.bytes, f.off, f.width);
+                        (16..=300).contains(&v)
+                    }
+                }) && b.map.complete;
+                if ok && b.bytes.len() <= (64 << 10) {
+                    return b;
+                }
+            }
+            base
+        }
+        1 => gen_special(seed, "tileset-external-only", 1, &mut r),
+        2 => gen_special(seed, "link-to-tilemap", 1, &mut r),
+        _ => gen_special(seed, "userdata-props-deep", 3 + (id % 3) as usize, &mut r),
+    }
+}
+
 pub fn make_job(ctx: &Ctx, prop: &str, id: u64) -> Job {
     let l = layout(ctx, prop);
     let seed = mix(&[ctx.seed, tag(prop), id]);
@@ -345,10 +378,12 @@ pub fn make_job(ctx: &Ctx, prop: &str, id: u64) -> Job {
             }
             "C12" => {
                 let base = structured_base(ctx, prop, id, 64 << 10);
+                let base = refused_feature_base(prop, seed, id, base);
                 cells_job(base, true)
             }
             _ => {
                 let base = structured_base(ctx, prop, id, 16 << 10);
+                let base = refused_feature_base(prop, seed, id, base);
                 cells_job(base, false)
             }
         }
@@ -408,7 +443,7 @@ pub fn cells_job(base: Base, inflate_only: bool) -> JobKind {
         if *seen > 6 {
             continue;
         }
-        let cur = get(&base.bytes, f.off, f.width);
+        let cur = faults::field_get(&base.bytes, f);
         if inflate_only {
             if !f.kind.is_sizeish() {
                 continue;
